@@ -550,6 +550,92 @@ def r5_copy_protocol(rep, src):
                  'pickle.dumps(paragraph, 1) raise TypeError (protocols 2 and later work)' % norm(slots[0].value), where='%s:%d' % (mod.relpath, slots[0].lineno))
 
 
+def r5b_copy_follows_order(rep, src):
+    """what a copy / an unpickled set is rebuilt from (the arguments __reduce__ hands to the class) is the keys in their current
+    order: OrderedSet operations interpreted on a heap, then __reduce__ interpreted in that heap and its item list compared with
+    the list read from the head.  (The hash table keeps the order of first insertion: a re-ordering moves the list node only.)"""
+    m = src.mod(UT)
+    A, B, C = H.Key('a', 'Alpha'), H.Key('b', 'Beta'), H.Key('c', 'Gamma')
+    n = 0
+    for cname in ('OrderedSet', 'LinkedList'):
+        red = m.funcs.get(cname + '.__reduce__')
+        if red is None:
+            continue
+        rep.saw_func(red)
+        for opname, args in ((None, []), ('order_first', [C]), ('order_last', [A]), ('order_before', [C, B]), ('order_after', [A, B])):
+            if cname != 'OrderedSet' and opname is not None:
+                continue
+            heap = new_heap(src)
+            oset, lst, table, nodes = build_set(heap, src, [A, B, C])
+            it = H.Interp(heap)
+            what = '__reduce__ after %s' % ('%s(%s)' % (opname, ', '.join(a.spelling for a in args)) if opname else 'no re-ordering')
+            try:
+                if opname is not None:
+                    op = m.method('OrderedSet', opname)
+                    it.call(H.Closure(op.node, {}, oset, op.cls), list(args))
+                r = it.call(H.Closure(red.node, {}, oset if cname == 'OrderedSet' else lst, red.cls), [])
+            except H.Raised as x:
+                rep.fail('C09.R5', red.site, what, 'raises %s (line %d)' % (x.exc, x.lineno), where=red.where)
+                continue
+            want, _p = set_state(heap, lst, table)
+            items = None
+            if isinstance(r, tuple) and len(r) >= 2 and isinstance(r[1], tuple) and len(r[1]) == 1:
+                try:
+                    items = [x.spelling if isinstance(x, H.Key) else x for x in it.seq(r[1][0])]
+                except AnalysisError:
+                    items = None
+            n += 1
+            if items is None:
+                raise AnalysisError('%s: the reduce value %r is not (class, (items,))' % (red.site, r))
+            if items == want:
+                rep.ok('C09.R5', red.site, what, 'rebuilt from %s' % items)
+            else:
+                rep.fail('C09.R5', red.site, what, 'the copy is rebuilt from %s while the keys are in the order %s: copy.deepcopy() / pickle of a paragraph forget the re-ordering'
+                         % (items, want), where=red.where)
+    return n
+
+
+def r6_sort_fields(rep, src):
+    """Deb822Dict.sort_fields() interpreted on a paragraph whose field names differ in the case of their first letter: without a key
+    function the fields are sorted by their lower-cased name (the documented default), not by their spelling -- a plain sort of the
+    case-insensitive strings compares the spelling, since the class keeps the ordering of str."""
+    dm, um = src.mod('deb822'), src.mod(UT)
+    f = dm.method('Deb822Dict', 'sort_fields')
+    if f is None:
+        raise AnalysisError('deb822:Deb822Dict.sort_fields not found')
+    rep.saw_func(f)
+    ci = um.classes.get('_CaseInsensitiveString')
+    if ci is None:
+        raise AnalysisError('_util:_CaseInsensitiveString not found')
+    if any(isinstance(st, ast.FunctionDef) and st.name in ('__lt__', '__le__', '__gt__', '__ge__') for st in ci.body):
+        raise AnalysisError('_util:_CaseInsensitiveString defines its own ordering (not modelled)')
+    names = ['package', 'Version', 'architecture', 'Depends', 'Zeta', 'alpha']
+    keys = [H.Key(n_.lower(), n_) for n_ in names]
+    for label, args in (('sort_fields()', []), ('sort_fields(None)', [None])):
+        heap = H.Heap(dm, field_alias={'_previous_node': 'previous_node'}, extra_modules=[um])
+        it = H.Interp(heap)
+        oset, lst, table, nodes = build_set(heap, src, keys)
+        me = heap.alloc('Deb822Dict', {'_Deb822Dict__keys': oset})
+        try:
+            it.call(H.Closure(f.node, {}, me, f.cls), list(args))
+        except H.Raised as x:
+            rep.fail('C09.R6', f.site, label, 'raises %s (line %d)' % (x.exc, x.lineno), where=f.where)
+            continue
+        ks = heap.objs[me.name].get('_Deb822Dict__keys')
+        if not isinstance(ks, H.Ref):
+            raise AnalysisError('%s: the key set after sorting is %r' % (f.site, ks))
+        if heap.objs[ks.name]['__class__'] == 'OrderedSet':
+            got = [x.spelling if isinstance(x, H.Key) else x for x in it.seq(ks)]
+        else:
+            got = [x.spelling if isinstance(x, H.Key) else x for x in it.seq(ks)]
+        want = sorted(names, key=str.lower)
+        if got == want:
+            rep.ok('C09.R6', f.site, label, 'sorted by lower-cased name: %s' % got)
+        else:
+            rep.fail('C09.R6', f.site, label, 'the fields %s come out as %s; sorted by lower-cased name (the default key) they are %s%s' % (
+                names, got, want, ': the sort compares the spelling, upper-case initials first' if got == sorted(names) else ''), where=f.where)
+
+
 def check(src, rep, tier):
     rep.explanation = ('C09: the methods of LinkedListNode/LinkedList/OrderedSet are interpreted by a heap-shape abstract interpreter on '
                        'symbolic heaps covering every pointer-equality pattern (lists of 0..3 nodes × position of the argument node); after '
@@ -567,3 +653,6 @@ def check(src, rep, tier):
     rep.guard('C09.R1', r1_key_normalisation, src)
     rep.need('C09.R5', 2)
     rep.guard('C09.R5', r5_copy_protocol, src)
+    rep.guard('C09.R5', r5b_copy_follows_order, src)
+    rep.need('C09.R6', 2)
+    rep.guard('C09.R6', r6_sort_fields, src)
